@@ -57,6 +57,7 @@ struct Op {
 struct Plan {
     string prop = "C13", cfg = "nofault";
     uint64_t seed = 0, fill = 1; int nobj = 1; long long index = -1;
+    int amode = 0;      // how the caller holds the address: 0 exact-size fresh block per call, 1 one reused buffer per object, 2 one reused buffer for all objects
     vector<Op> ops;
 };
 
@@ -72,7 +73,7 @@ static sj::Value op_to_json(const Op &op) {
 static sj::Value plan_to_json(const Plan &p) {
     sj::Value j = sj::Value::object();
     j.set("prop", p.prop); j.set("cfg", p.cfg); j.set("seed", (long long)p.seed); j.set("index", p.index);
-    j.set("fill", (long long)p.fill); j.set("nobj", p.nobj);
+    j.set("fill", (long long)p.fill); j.set("nobj", p.nobj); j.set("amode", p.amode);
     sj::Value a = sj::Value::array();
     for (auto &op : p.ops) a.push(op_to_json(op));
     j.set("ops", a);
@@ -82,7 +83,7 @@ static Plan plan_from_json(const sj::Value &j) {
     Plan p;
     p.prop = j.gets("prop", "C13"); p.cfg = j.gets("cfg", "nofault");
     p.seed = (uint64_t)j.geti("seed"); p.fill = (uint64_t)j.geti("fill", 1); p.nobj = (int)j.geti("nobj", 1);
-    p.index = j.geti("index", -1);
+    p.index = j.geti("index", -1); p.amode = (int)j.geti("amode", 0);
     if (p.nobj < 1) p.nobj = 1;
     if (p.nobj > 8) p.nobj = 8;
     const sj::Value *ops = j.get("ops");
@@ -181,6 +182,16 @@ static void build_pools() {
         if (a.size() < b.size() && b.compare(0, a.size(), a) == 0 && shim_tld_type(i) != shim_tld_type(j) && (i * 31 + j) % 4 == 0)
             G.pairs.push_back({ "user@host." + a, "user@host." + b });
     }
+    // same length, same first and last bytes, different verdict: defeats memoisation keyed on cheap features of the address
+    {
+        const char *base[] = { "user@host.com", "very.common@iana.org", "a.b@mail.ru", "x@[1.2.3.4]", "info@example.net", "user@host.museum", "u@xn--80a1acny.xn--p1ai", "first.last@sub.domain.org" };
+        for (auto bs : base) {
+            string a = bs; size_t at = a.find('@');
+            string v1 = a; v1[at + 1 + (a.size() - at - 1) / 2] = '_'; G.pairs.push_back({ a, v1 });
+            string v2 = a; v2[at / 2] = ' '; G.pairs.push_back({ a, v2 });
+            string v3 = a; if (a.size() - at > 4) { v3[a.size() - 2] = v3[a.size() - 2] == 'o' ? 'q' : 'o'; G.pairs.push_back({ a, v3 }); }
+        }
+    }
     // the longest names of the table (length pre-checks, fixed label buffers)
     { vector<string> byl; for (int i = 0; i < nt; i++) byl.push_back(shim_tld_name(i)); std::sort(byl.begin(), byl.end(), [](const string &x, const string &y) { return x.size() > y.size(); }); for (size_t i = 0; i < byl.size() && i < 8; i++) doms.push_back("mail." + byl[i]); }
     for (auto &d : doms_corp) doms.push_back(d);
@@ -263,6 +274,7 @@ static Plan gen_history(const string &prop, const string &cfg, uint64_t seed, lo
     sim_rng w = sim_derive(rs, 1), f = sim_derive(rs, 2);
     p.fill = sim_mix64(rs ^ 0xF1);
     p.nobj = 1 + (int)sim_below(&w, 3);
+    p.amode = (int)sim_below(&w, 3);
     int len;
     unsigned lc = (unsigned)sim_below(&w, 100);
     if (lc < 35) len = 1 + (int)sim_below(&w, 8);
@@ -514,6 +526,18 @@ struct Exec {
     int def_rfc = 0, def_tld = 0, def_allow = 0;
     std::map<RefKey, Outcome> ref_pre;
     bool nontrivial_cmp = false, any_state_change = false, any_fired = false, any_sf_fired = false;
+    vector<char *> abuf;        // reused caller buffers (amode 1/2): same pointer, new content, stale tail after the NUL
+    char *tight = nullptr;      // amode 0: exact-size block, freed after the call (ASan sees any read past the terminator)
+    const char *caller_copy(int o, const string &a) {
+        if (plan.amode == 0) { tight = (char *)malloc(a.size() + 1); memcpy(tight, a.data(), a.size()); tight[a.size()] = 0; return tight; }
+        size_t slot = plan.amode == 2 ? 0 : (size_t)o;
+        if (abuf.size() <= slot) abuf.resize(slot + 1, nullptr);
+        if (!abuf[slot]) { abuf[slot] = (char *)malloc(8192); memset(abuf[slot], '#', 8192); }
+        size_t n = a.size() < 8191 ? a.size() : 8191;
+        memcpy(abuf[slot], a.data(), n); abuf[slot][n] = 0;
+        return abuf[slot];
+    }
+    void caller_done() { if (tight) { free(tight); tight = nullptr; } }
     int cur_op = -1;
 
     Exec(const Plan &p, bool l) : plan(p), want_log(l) { esz = shim_eav_size(); is_idnkit = !strcmp(shim_backend(), "idnkit"); }
@@ -564,8 +588,14 @@ struct Exec {
         if (s != 0) { g_sim_tag = SIM_TAG_NONE; viol("harness:reference-setup-failed", "eav_setup on a fresh object failed for a valid mode"); free(e); return o; }
         shim_set_tld_check(e, k.tld); shim_set_allow(e, (int)k.allow);
         sim_conv_begin(k.f_on, k.code, k.buf);
-        int ret = shim_is_email(e, k.a.c_str(), k.a.size());
+        g_sim_tag = SIM_TAG_NONE;
+        const char *ap = caller_copy(0, k.a);     // reference runs hold the address like the history does
+        g_sim_tag = SIM_TAG_REF;
+        int ret = shim_is_email(e, ap, k.a.size());
         capture(e, ret, o);
+        g_sim_tag = SIM_TAG_NONE;
+        caller_done();
+        g_sim_tag = SIM_TAG_REF;
         g_sim_in_free = 1; shim_free(e); g_sim_in_free = 0;
         g_sim_tag = SIM_TAG_NONE;
         if (sim_ledger_live_for_tag(SIM_TAG_REF, nullptr, 0) != 0) {
@@ -708,6 +738,8 @@ struct Exec {
         ST.ctx_by_setup += g_sim_ctx.destroyed_by_setup; ST.ctx_by_free += g_sim_ctx.destroyed_by_free;
         for (void *e : store) free(e);
         store.clear();
+        for (char *b : abuf) free(b);
+        abuf.clear();
         rec("END allocs=" + std::to_string(sim_ledger_allocs()) + " frees=" + std::to_string(sim_ledger_frees()) + " ctx=" + std::to_string(g_sim_ctx.created) + "/" + std::to_string(g_sim_ctx.destroyed), "END");
     }
 
@@ -780,10 +812,12 @@ struct Exec {
             RefKey k{ m.confirmed, m.tld, m.allow, op.a, op.f_on, op.f_code, op.f_buf };
             if (op.f_on) ST.fault_attached++;
             sim_conv_begin(op.f_on, op.f_code, op.f_buf);
+            const char *ap = caller_copy(op.o, op.a);
             g_sim_tag = op.o;
-            int ret = shim_is_email(e, op.a.c_str(), op.a.size());
+            int ret = shim_is_email(e, ap, op.a.size());
             Outcome o; capture(e, ret, o);
             g_sim_tag = SIM_TAG_NONE;
+            caller_done();
             ST.is_email_exec++; ST.errcodes_seen.insert(o.errcode);
             if (ST.distinct_addr.size() < 200000) ST.distinct_addr.insert(op.a);
             if (m.pending_switch_from >= 0) { ST.mode_switch[m.pending_switch_from][m.confirmed]++; m.pending_switch_from = -2; }
